@@ -1,144 +1,28 @@
 /-
   C14 — Text positions and error reports are accurate.
+  `Rox.Props.C14Base`: `text_pos_at` (total, clamped, floored to a character boundary; rows and
+  columns; how they shift). This file: the positions carried by the errors of `parse`.
 -/
-import Rox.Stream
+import Rox.Props.C14Base
+import Rox.Lemmas.ErrPos
 
 namespace Rox.Props.C14
-open Rox
+open Rox Rox.Lemmas
 
-/-- 0 and the end of the text are boundaries. -/
-theorem boundary_zero (txt : Bytes) : isCharBoundary txt 0 = true := by simp [isCharBoundary]
+/-- **Every error position comes from the input** (all inputs, all options): whenever `parse`
+returns `Err(e)`, either `e` is one of the kinds without a position (`Error::pos` answers 1:1) or
+`e.pos()` is the (row, column) of some byte offset `q ≤ len` of the input, computed by the same
+`calc_row` / `calc_col` that `text_pos_at` uses — errors raised while expanding an entity
+included. -/
+theorem error_position_from_input (T : Tables) (txt : Bytes) (opt : Opt) (e : Err)
+    (h : parse T txt opt = .err e) :
+    e.pos = ⟨1, 1⟩ ∨ ∃ q, q ≤ txt.length ∧ e.pos = ⟨calcRow txt q, calcCol txt q⟩ :=
+  parse_error_position T txt opt e h
 
-theorem floorBoundary_le (txt : Bytes) (p : Nat) : floorBoundary txt p ≤ p := by
-  induction p with
-  | zero => simp [floorBoundary]
-  | succ p ih => unfold floorBoundary; split <;> omega
-
-theorem floorBoundary_isBoundary (txt : Bytes) (p : Nat) :
-    isCharBoundary txt (floorBoundary txt p) = true := by
-  induction p with
-  | zero => simp [floorBoundary, isCharBoundary]
-  | succ p ih => unfold floorBoundary; split <;> simp_all
-
-/-- An offset that already is a boundary is left where it is. -/
-theorem floorBoundary_of_boundary (txt : Bytes) (p : Nat) (h : isCharBoundary txt p = true) :
-    floorBoundary txt p = p := by
-  cases p with
-  | zero => rfl
-  | succ p => simp [floorBoundary, h]
-
-/-- `text_pos_at(p)` returns normally for EVERY byte offset: past the end it is clamped, inside
-a multi-byte character it is moved to the character's first byte (this is the D3 repair). -/
-theorem textPosAt_total (txt : Bytes) (p : Nat) :
-    textPosAt txt p = .ok ⟨calcRow txt (floorBoundary txt (min p txt.length)),
-                           calcCol txt (floorBoundary txt (min p txt.length))⟩ := by
-  unfold textPosAt genTextPosFrom genTextPos
-  have h1 : floorBoundary txt (min p txt.length) ≤ txt.length :=
-    Nat.le_trans (floorBoundary_le _ _) (Nat.min_le_right _ _)
-  simp [h1, floorBoundary_isBoundary]
-
-/-- Offsets past the end are clamped to the end. -/
-theorem textPosAt_clamp (txt : Bytes) (p : Nat) (h : txt.length ≤ p) :
-    textPosAt txt p = textPosAt txt txt.length := by
-  rw [textPosAt_total, textPosAt_total]; simp [Nat.min_eq_right h]
-
-/-- Number of lines of a text: 1 + number of LF. -/
-def lineCount (txt : Bytes) : Nat := 1 + txt.count 10
-
-/-- Rows are in bounds: `1 ≤ row ≤ number of lines`. -/
-theorem row_in_bounds (txt : Bytes) (e : Nat) : 1 ≤ calcRow txt e ∧ calcRow txt e ≤ lineCount txt := by
-  unfold calcRow lineCount
-  have : (txt.take e).count 10 ≤ txt.count 10 := (List.take_sublist e txt).count_le 10
-  omega
-
-/-- Columns are at least 1. -/
-theorem col_ge_one (txt : Bytes) (e : Nat) : 1 ≤ calcCol txt e := by unfold calcCol; omega
-
-/-- The row is 1 + the number of line breaks before the offset, for every offset. -/
-theorem row_spec (txt : Bytes) (e : Nat) : calcRow txt e = 1 + ((txt.take e).filter (· == 10)).length := by
-  simp [calcRow, List.count_eq_length_filter]
-
-private theorem takeWhile_all {α} (p : α → Bool) (l : List α) (h : ∀ b ∈ l, p b = true) :
-    l.takeWhile p = l := by
-  induction l with
-  | nil => rfl
-  | cons a r ih => simp [List.takeWhile, h a (by simp), ih (fun b hb => h b (by simp [hb]))]
-
-private theorem takeWhile_append_stop {α} (p : α → Bool) (l r : List α)
-    (h : ∀ b ∈ r, p b = false) : (l ++ r).takeWhile p = l.takeWhile p := by
-  induction l with
-  | nil =>
-    cases r with
-    | nil => rfl
-    | cons b r => simp [List.takeWhile, h b (by simp)]
-  | cons a l ih => simp only [List.cons_append, List.takeWhile]; split <;> simp [ih]
-
-/-- Inserting `k` line breaks ahead of the text shifts every row by exactly `k` and leaves the
-column alone. -/
-theorem shift_rows (txt : Bytes) (k p : Nat) :
-    calcRow (List.replicate k 10 ++ txt) (k + p) = calcRow txt p + k ∧
-    calcCol (List.replicate k 10 ++ txt) (k + p) = calcCol txt p := by
-  have htake : (List.replicate k (10 : UInt8) ++ txt).take (k + p) = List.replicate k 10 ++ txt.take p := by
-    rw [List.take_append]; simp
-  constructor
-  · unfold calcRow; rw [htake]; simp [List.count_append]; omega
-  · unfold calcCol; rw [htake]
-    simp only [List.reverse_append, List.reverse_replicate]
-    rw [takeWhile_append_stop]
-    intro b hb
-    simp only [List.mem_replicate] at hb
-    rw [hb.2]; decide
-
-/-- Inserting `k` spaces ahead of the text on the first line shifts the column of every offset
-on that line by exactly `k` (and no row). -/
-theorem shift_cols (txt : Bytes) (k p : Nat) (hline : ∀ b ∈ txt.take p, b ≠ 10) :
-    calcRow (List.replicate k 32 ++ txt) (k + p) = calcRow txt p ∧
-    calcCol (List.replicate k 32 ++ txt) (k + p) = calcCol txt p + k := by
-  have htake : (List.replicate k (32 : UInt8) ++ txt).take (k + p) = List.replicate k 32 ++ txt.take p := by
-    rw [List.take_append]; simp
-  constructor
-  · unfold calcRow; rw [htake]; simp [List.count_append, List.count_replicate]
-  · unfold calcCol; rw [htake]
-    have h1 : ((List.replicate k (32 : UInt8) ++ txt.take p).reverse.takeWhile (· != 10)) =
-        (List.replicate k 32 ++ txt.take p).reverse := by
-      apply takeWhile_all
-      intro b hb
-      simp only [List.mem_reverse, List.mem_append, List.mem_replicate] at hb
-      rcases hb with ⟨_, rfl⟩ | hb
-      · decide
-      · simpa using hline b hb
-    have h2 : ((txt.take p).reverse.takeWhile (· != 10)) = (txt.take p).reverse := by
-      apply takeWhile_all
-      intro b hb
-      simpa using hline b (List.mem_reverse.mp hb)
-    rw [h1, h2]
-    simp only [countChars, List.reverse_append, List.filter_append, List.length_append,
-      List.filter_reverse, List.length_reverse]
-    have : ((List.replicate k (32 : UInt8)).filter fun b => !(isCont b)).length = k := by
-      rw [List.filter_replicate]; simp [isCont]
-    omega
-
-/-- Every position-less error variant reports `1:1`; every other variant reports the position it
-carries (`Error::pos`). -/
-theorem posless_is_1_1 :
-    Err.noRootNode.pos = ⟨1, 1⟩ ∧ Err.unclosedRootNode.pos = ⟨1, 1⟩ ∧ Err.dtdDetected.pos = ⟨1, 1⟩ ∧
-    Err.nodesLimitReached.pos = ⟨1, 1⟩ ∧ Err.attributesLimitReached.pos = ⟨1, 1⟩ ∧
-    Err.namespacesLimitReached.pos = ⟨1, 1⟩ ∧ Err.unexpectedEndOfStream.pos = ⟨1, 1⟩ := by
-  simp [Err.pos]
-
-/-- Every error the model constructs through `errAt`/`errFrom` takes its position from
-`gen_text_pos` at an offset inside the text, hence (by `row_in_bounds`, `col_ge_one`) inside it. -/
-theorem errFrom_pos {α} (txt : Bytes) (mk : TextPos → Err) (p : Nat) :
-    (errFrom txt mk p : Res α) =
-      .err (mk ⟨calcRow txt (floorBoundary txt (min p txt.length)),
-                calcCol txt (floorBoundary txt (min p txt.length))⟩) := by
-  unfold errFrom
-  have := textPosAt_total txt p
-  unfold textPosAt at this
-  rw [this]
-
-/-- Non-vacuity / regression of D3: offset 4 of "<a>é</a>" is inside `é` and reports the column
-of `é`. -/
-example : textPosAt [60, 97, 62, 0xC3, 0xA9, 60, 47, 97, 62] 4 = .ok ⟨1, 4⟩ := by decide
+/-- … and therefore lies inside the input: `1 ≤ row ≤ number of lines`, `1 ≤ col`. -/
+theorem error_position_in_bounds (T : Tables) (txt : Bytes) (opt : Opt) (e : Err)
+    (h : parse T txt opt = .err e) :
+    1 ≤ e.pos.row ∧ e.pos.row ≤ lineCount txt ∧ 1 ≤ e.pos.col :=
+  parse_error_position_in_bounds T txt opt e h
 
 end Rox.Props.C14
